@@ -267,8 +267,85 @@ def run(ctx: RuleContext, p: Program) -> None:
     ctx.try_rule(rule_pure, p, 'PURE')
     ctx.try_rule(rule_store_read_pure, p, 'STORE-READ-PURE')
     ctx.try_rule(rule_claim_perm, p, 'CLAIM-PERM')
+    ctx.try_rule(rule_getter_nowrite, p, 'GETTER-NOWRITE')
+    ctx.try_rule(rule_flag_setter, p, 'FLAG-SETTER')
     ctx.try_rule(rule_take_ignored, p, 'TAKE-IGNORED')
     ctx.not_decided += ['which placeholders sit next to a comment (the neighbourhood argument)', 'relative order of non-placeholder '
                         'tokens in _claim_comment\'s explicit list (read off by the reviewer: newline, comment kept in walk order)']
     ctx.assumptions += ['primitive models of the effect interpreter (see C19)', '_take_ignored only appends Placeholder tokens it walks over '
                         '(checked: its loop is `while isinstance(token, Placeholder): ignored.append(token); token = succ(token)`)']
+
+
+# ====================================================================== GETTER-NOWRITE / FLAG-SETTER (added after seeded round 3)
+def rule_getter_nowrite(ctx: RuleContext, p: Program, rid: str) -> None:
+    from ..model import CustomProp, self_attr
+    ctx.rule(rid, 'no property getter of a model or token class writes to the object it reads: no assignment to an attribute of self '
+                  '(which would run a property setter or overwrite a cached part) and no _update_raw_text call, in the getter or in a '
+                  'method of the same class it calls on self (depth 2); memoisation through instance.__dict__ / cached_property is exempt')
+    raw_model = p.cls('RawModel', 'models.base')
+    n = 0
+
+    def writes(fn: FuncInfo, c: Any, depth: int, seen: set[int]) -> Optional[str]:
+        if id(fn) in seen or depth > 2:
+            return None
+        seen.add(id(fn))
+        selfn = fn.params[0] if fn.params else 'self'
+        for x in walk_no_nested(fn.node):
+            tg: list[ast.AST] = []
+            if isinstance(x, ast.Assign):
+                tg = list(x.targets)
+            elif isinstance(x, (ast.AugAssign, ast.AnnAssign)):
+                tg = [x.target]
+            for t in tg:
+                for y in ([t] if not isinstance(t, ast.Tuple) else t.elts):
+                    if isinstance(y, ast.Attribute) and isinstance(y.value, ast.Name) and y.value.id == selfn:
+                        return f'`{norm(x)[:70]}` in {fn.qualname}'
+            if isinstance(x, ast.Call) and isinstance(x.func, ast.Attribute) and isinstance(x.func.value, ast.Name) and x.func.value.id == selfn:
+                if x.func.attr == '_update_raw_text':
+                    return f'`{norm(x)[:70]}` in {fn.qualname}'
+                callee = c.lookup(x.func.attr)
+                if isinstance(callee, FuncInfo) and callee.kind == 'method':
+                    w = writes(callee, c, depth + 1, seen)
+                    if w:
+                        return w
+        return None
+
+    for c in [raw_model, *raw_model.all_subclasses()]:
+        for name, s in c.attrs.items():
+            if not isinstance(s, CustomProp) or s.fget is None or s.flavour in ('cached_property',):
+                continue
+            n += 1
+            w = writes(s.fget, c, 0, set())
+            ctx.check(w is None, rid, f'{c.module.name.split(".", 1)[1]}:{c.name}.{name}', 'getter writes nothing',
+                      f'reading {c.name}.{name} executes {w}: a read re-renders or overwrites part of the object (for a token: its text in the '
+                      f'document), so looking at a value changes what is printed', s.fget.where, note='no write to self', nontrivial=False)
+    if n < 150:
+        raise AnalysisError(f'GETTER-NOWRITE: only {n} getters examined')
+
+
+def rule_flag_setter(ctx: RuleContext, p: Program, rid: str) -> None:
+    from ..model import CustomProp, self_attr
+    ctx.rule(rid, 'a token property that is not part of the text (anything but raw_text and the parts _parse_value derives from it, e.g. '
+                  'BlockComment.claimed) has a setter that only stores its own flag: it neither calls _update_raw_text nor assigns the text or a '
+                  'text-derived part -- attribution of a comment must not re-render it')
+    base = p.cls('RawTokenModel', 'models.base')
+    n = 0
+    for c in [base, *base.all_subclasses()]:
+        for name, s in c.attrs.items():
+            if not isinstance(s, CustomProp) or s.fset is None or name in ('raw_text', 'value', 'indent'):
+                continue
+            n += 1
+            bad = ''
+            for x in walk_no_nested(s.fset.node):
+                if isinstance(x, ast.Call) and isinstance(x.func, ast.Attribute) and x.func.attr in ('_update_raw_text', '_format_value'):
+                    bad = f'`{norm(x)[:70]}`'
+                if isinstance(x, ast.Assign):
+                    for t in x.targets:
+                        if self_attr(t) in ('_raw_text', '_value', '_indent', 'raw_text', 'value', 'indent'):
+                            bad = f'`{norm(x)[:70]}`'
+            ctx.check(not bad, rid, f'{c.module.name.split(".", 1)[1]}:{c.name}.{name}[set]', 'stores its flag only',
+                      f'the setter of {c.name}.{name} runs {bad}: setting a flag that is not part of the text rewrites the token\'s text, so an '
+                      f'operation that only attributes a comment (claim / auto-claim at parse time) changes the printed document', s.fset.where,
+                      note='flag only')
+    if n < 1:
+        raise AnalysisError('FLAG-SETTER: no non-text token property setter found (BlockComment.claimed confirmed by hand)')
